@@ -1301,6 +1301,24 @@ def stage_files(ctx, pq, w):
                     case = {"stage": "file-dict-fallback", "cols": [col], "rgs": [rg]}
                     nfile += 1
                     check_file_case(ctx, pq, w, case, os.path.join(ctx.scratch, "f%d.parquet" % nfile), conf_budget)
+    # ---- fixed lattice: pages with ZERO entries (C15_empty_pages_neutral_v1/_v2, C15_pages_full_with_empty): an empty first page,
+    # an empty last page, one and two empty pages between two pages cut at EVERY level position (v1: also inside a row, so the
+    # continuation of a row follows an empty page) / every row boundary (v2); PLAIN and dictionary
+    for ptype in ("int64", "utf8"):
+        pl = pool(ptype)
+        col = dict(name="c", kind="list", row_opt=True, elem_opt=True, ptype=ptype)
+        rows = [None if r is None else [None if e is None else pl[(e * 5 + 2) % len(pl)] for e in r] for r in hrows]
+        rep0 = NF.shred(rows, True, True)[0]
+        for version in (1, 2):
+            cand = list(range(1, len(rep0))) if version == 1 else [p for p in row_boundaries(rep0) if 0 < p < len(rep0)]
+            if ctx.quick():
+                cand = cand[::2] if ptype == "utf8" else cand
+            for c1 in cand:
+                for cuts in ([c1, c1], [0, c1], [c1, len(rep0)], [c1, c1, c1]):
+                    lay = dict(cuts=list(cuts), version=version, dictionary=(c1 % 2 == 1), level_style="mixed", codec=None)
+                    case = {"stage": "file-empty-pages", "cols": [col], "rgs": [{"rows": {"c": rows}, "layout": {"c/elem": lay}}]}
+                    nfile += 1
+                    check_file_case(ctx, pq, w, case, os.path.join(ctx.scratch, "f%d.parquet" % nfile), conf_budget)
     # ---- random files ------------------------------------------------------------------------
     nrand = 400 if ctx.quick() else 15000
     for _ in range(nrand):
